@@ -20,7 +20,7 @@ COMPONENTS = {"real": ["Exchange", "LimitOrderBook", "Broker", "Rebalancing", "T
               "harness": ["user-defined AbstractContract subclasses", "Fraction ledger", "three-valued need model"], "stub": []}
 PROBE_FLOORS = {"valuation_with_missing_liq_quote": 100, "rebalance_must_fail": 100, "rebalance_either": 10,
                 "failed_rebalance_left_positions_unchanged": 100, "env_step_failed_atomically": 40,
-                "env_step_with_flat_contract_unquoted": 40, "env_episode_starts_after_discontinuation_in_latency_window": 4}
+                "env_step_with_flat_contract_unquoted": 40, "env_episode_starts_after_discontinuation_in_latency_window": 4, "env_future_expires_inside_the_episode": 18, "env_built_under_a_clock_past_the_expiry": 10}
 
 PROFILE = {
     "oracles": ["c13", "c01"],
@@ -46,15 +46,32 @@ def generate_epi(rng, i):
     """Episode-level clause: quote faults (NaN side, both sides, discontinuation) strike a held / targeted /
     flat contract at a random timestep of a running environment; later bars may repair it."""
     from tesim import gen_epi, core
-    env = gen_epi.gen_env(rng, EPI_PROFILE)
+    expiry_arm = rng.random() < 0.12
+    pf = EPI_PROFILE
+    if expiry_arm:
+        # a future that expires in the middle of the episode (ES March 2019, daily steps from 8 March): the
+        # environment schedules its discontinuation itself - also when the process-wide contract clock was left
+        # far in the future by whatever ran before the environment was built
+        pf = dict(EPI_PROFILE, t0s=["2019-03-08T00:00:00"], grid_styles=["daily"], n_min=9, n_max=12, latencies=[0], p_rate=0.0)
+    env = gen_epi.gen_env(rng, pf)
     grid = env["grid"]
     nc = len(env["contracts"])
     victim = rng.randrange(nc)
     k0 = rng.randint(1, len(grid) - 1)
     kind = rng.choice(["bid", "ask", "both", "disc"])
+    if expiry_arm:
+        kind = "expiry"
+        env["contracts"][victim] = {"name": "ESX", "kind": "future", "cls": "ES", "year": 2019, "month": 3}
+        env["cash"] = 1e7
+        for e in env["events"]:
+            if e["type"] == "nbbo" and e["c"] == victim:
+                f = 2800.0 / ((e["bid"] + e["ask"]) / 2)
+                e["bid"], e["ask"] = e["bid"] * f, e["ask"] * f
     span = rng.randint(1, 3)
     fold = None
-    if kind == "disc":
+    if kind == "expiry":
+        pass
+    elif kind == "disc":
         t_disc = grid[k0]
         if env["latency_us"] > 0 and rng.random() < 0.5:
             # the discontinuation lands inside the latency window after the previous timestep; half of the time the
@@ -79,8 +96,11 @@ def generate_epi(rng, i):
             a = gen_epi.gen_action(rng, env)
             a[victim] = {"long": 0.3, "short": -0.3, "flat": 0.0}[hold]
             op["action"] = a
-    return {"kind": "epi", "envs": [env], "clock0": "1999-01-01T00:00:00", "script": script, "prng": rng.randrange(2 ** 31),
-            "meta": {"victim": victim, "k0": k0, "fault": kind, "hold": hold, "fold": fold}}
+    clock0 = "1999-01-01T00:00:00"
+    if expiry_arm and rng.random() < 0.6:
+        clock0 = "2019-06-03T00:00:00"          # a stale clock, past the expiry, when the environment is built
+    return {"kind": "epi", "envs": [env], "clock0": clock0, "script": script, "prng": rng.randrange(2 ** 31),
+            "meta": {"victim": victim, "k0": k0, "fault": kind, "hold": hold, "fold": fold, "stale_clock": clock0 != "1999-01-01T00:00:00"}}
 
 
 def execute_epi(scenario):
@@ -124,6 +144,10 @@ def execute_epi(scenario):
         steps_model = epicheck.visited_steps(dmodel, env_spec, ep)
         if meta.get("fold"):
             probe("env_episode_starts_after_discontinuation_in_latency_window")
+        if meta.get("fault") == "expiry":
+            probe("env_future_expires_inside_the_episode")
+            if meta.get("stale_clock"):
+                probe("env_built_under_a_clock_past_the_expiry")
         for st in ep["steps"]:
             if st["done_before"]:
                 break
